@@ -10,6 +10,7 @@ import (
 	"hash/fnv"
 	"os"
 	"sort"
+	"strconv"
 	"strings"
 	"sync"
 )
@@ -197,6 +198,10 @@ func (r *Recorder) Violate(c *Case, oracle, entry, expected, observed string) {
 }
 
 func (r *Recorder) AddViolation(v Violation) {
+	if strconv.IntSize == 32 && !strings.Contains(v.Desc, "GOARCH=386") {
+		// the 32-bit pass: say so, `check --replay` then uses the 32-bit build too
+		v.Desc += " [observed on the GOARCH=386 build]"
+	}
 	if v.Key == "" {
 		v.Key = v.Oracle + "|" + v.Entry + "|" + v.InputQ + "|" + v.Script
 	}
